@@ -377,6 +377,9 @@ class KernelPCovR(_BasePCA, LinearModel):
 
         if self.fit_inverse_transform:
             self.ptx_ = self.pt__ @ X
+        elif hasattr(self, "ptx_"):
+            # left over from an earlier fit with fit_inverse_transform=True
+            del self.ptx_
 
         self.pky_ = self.pkt_ @ self.pty_
 
